@@ -132,6 +132,13 @@ pub enum Top {
 pub struct Case {
     top: Top,
     tree: Vec<T>,
+    /// mode of the layers directory itself (the parent of the layer: outside the layer)
+    #[serde(default = "default_layers_mode")]
+    layers_mode: u32,
+}
+
+fn default_layers_mode() -> u32 {
+    0o755
 }
 
 /// the whole scratch tree (relative to the scratch root)
@@ -140,6 +147,7 @@ fn world(case: &Case, root: &Path) -> Snapshot {
     for d in ["layers", "app", "buildpack", "outside"] {
         s.insert(d, Node::dir());
     }
+    s.insert("layers", Node::Dir { mode: case.layers_mode });
     s.insert("outside/file", Node::File { mode: 0o644, data: b"# canary\n".to_vec() });
     s.insert("outside/dir555", Node::Dir { mode: 0o555 });
     s.insert("outside/dir555/file", Node::File { mode: 0o444, data: b"canary".to_vec() });
@@ -341,7 +349,7 @@ fn judge(case: &Case, op: &str, uid: u32, w: &mut Worker) -> (Vec<Viol>, String)
         } else if !leftovers.is_empty() {
             v.push(("layer-entries-left".into(), format!("{op} as {who} on {case:?} succeeded but entries remain: {leftovers:?}"), replay.clone()));
         }
-    } else if case.top == Top::Real && only_benign(&case.tree) {
+    } else if case.top == Top::Real && only_benign(&case.tree) && (uid == 0 || case.layers_mode & 0o200 != 0) {
         v.push((format!("delete-failed:{}", if uid == 0 { "root" } else { "owner" }), format!("{op} as {who} on tree {:?} failed: {:?}", case.tree, result), replay.clone()));
     }
     let outcome = format!("{}:{}", if result.is_ok() { "ok" } else { "err" }, if ob == oa { "contained" } else { "escaped" });
@@ -368,14 +376,17 @@ pub fn run(args: &Args) {
     let budget = if args.thorough() { 4 } else { 3 };
     let trees = gen_lists(budget, 1);
     for t in &trees {
-        cases.push(Case { top: Top::Real, tree: t.clone() });
+        cases.push(Case { top: Top::Real, tree: t.clone(), layers_mode: 0o755 });
     }
     // top-level variants with every tree of <= 2 nodes
     for t in gen_lists(2, 1) {
-        cases.push(Case { top: Top::LinkInside, tree: t.clone() });
-        cases.push(Case { top: Top::TomlLink, tree: t.clone() });
+        cases.push(Case { top: Top::LinkInside, tree: t.clone(), layers_mode: 0o755 });
+        cases.push(Case { top: Top::TomlLink, tree: t.clone(), layers_mode: 0o755 });
+        // a read-only layers directory (root can still delete in it; its mode is outside the layer)
+        cases.push(Case { top: Top::Real, tree: t.clone(), layers_mode: 0o555 });
     }
-    cases.push(Case { top: Top::LinkOutside, tree: vec![] });
+    cases.push(Case { top: Top::LinkOutside, tree: vec![], layers_mode: 0o755 });
+    cases.push(Case { top: Top::LinkOutside, tree: vec![], layers_mode: 0o555 });
     // self-test: unprivileged workers must really be unprivileged
     {
         let sc = Scratch::new("c11self");
@@ -435,7 +446,7 @@ pub fn run(args: &Args) {
     rep.cov("trees", cases.len() as u64);
     rep.cov("distinct_nontrivial", nontrivial);
     rep.cov("distinct_outcomes", json!(outcomes));
-    rep.cov("rule", "every multiset tree of <= N nodes over {file(0444), dir x modes {755,555,666,000} with children, 10 symlink kinds (inside file/dir, sibling layer dir/file, outside dir/file absolute and relative, dangling, self loop, pair loop)}, two levels, <= 3 entries per directory; plus layer path / a.toml being symlinks (with every <=2-node tree); each x 3 operations (uncached_layer over existing, cached_layer Delete, handle_layer Recreate) x {root, uid 65534 owner}; non-trivial = trees containing a directory or symlink, or a top-level variant");
+    rep.cov("rule", "every multiset tree of <= N nodes over {file(0444), dir x modes {755,555,666,000} with children, 10 symlink kinds (inside file/dir, sibling layer dir/file, outside dir/file absolute and relative, dangling, self loop, pair loop)}, two levels, <= 3 entries per directory; plus layer path / a.toml being symlinks and a read-only (0555) layers directory (each with every <=2-node tree); each x 3 operations (uncached_layer over existing, cached_layer Delete, handle_layer Recreate) x {root, uid 65534 owner}; non-trivial = trees containing a directory or symlink, or a top-level variant");
     rep.cov("bound", json!({"max_nodes": budget, "levels": 2, "ops": OPS, "uids": [0, NOBODY]}));
     rep.cov("exhaustive", true);
     rep.sample(json!(cases[cases.len() / 2]));
